@@ -18,7 +18,7 @@ RULE = ('case = generated pipeline built as a real chain in a worker process; fo
         'a required input mock or a required parameter must fail at helper construction. non-trivial = T has >=1 input and >=1 parameter; '
         'distinct = hash(task spec, helper options)')
 REQUIRED = ['helpers', 'compared_with_real_chain', 'arbitrary_mock_values', 'missing_input_reported', 'missing_param_reported', 'test_chain_used',
-            'objects_as_definitions', 'mocks_by_class', 'mocks_by_name']
+            'objects_as_definitions', 'mocks_by_class', 'mocks_by_name', 'mocked_tasks_also_listed']
 ASSUMPTIONS = ['every helper gets a fresh base dir (re-using one base dir for helpers with other parameters is outside the statement)',
                'global_vars/placeholders are not used here (the helpers have no global_vars argument)']
 BUDGET = {'quick': 60, 'thorough': 1200}
@@ -44,6 +44,8 @@ def run_one(rng, res: CaseResult):
         expl = [x for x in ts['inputs'] if x['form'] not in ('pattern', 'pattern_all')]
         st = {'op': 'helper', 'chain': 'c', 'task': n, 'use_test_chain': rng.random() < 0.4, 'omit_defaults': rng.random() < 0.5,
               'objects_as_definitions': rng.random() < 0.5, 'mock_by_class': rng.random() < 0.7, 'explicit_base_dir': rng.random() < 0.5}
+        if st['use_test_chain'] and rng.random() < 0.5:
+            st['also_listed'] = rng.randrange(1, 9)
         mode = rng.random()
         expect_fail = None
         if mode < 0.25:
@@ -86,6 +88,8 @@ def run_one(rng, res: CaseResult):
         if st['objects_as_definitions']:
             res.count('objects_as_definitions')
         res.count('mocks_by_class' if st['mock_by_class'] else 'mocks_by_name')
+        if o.get('also_listed'):
+            res.count('mocked_tasks_also_listed')
         if expect_fail:
             if o.get('constructed'):
                 res.violate(f'{here}: a required {"input task" if expect_fail == "input" else "parameter"} was not supplied but the helper was constructed '
